@@ -110,6 +110,13 @@ def rule_default(E, R, rule="R01-default", only=None, floor=12):
     cl = [c for c in exprs(ho["body"], "Closure") if c.get("ty", "").startswith("{closure") and
           any(True for _ in calls(c["body"], r"Compare.*::compare$|::compare$"))]
     outer = [c for c in exprs(ho["body"], "Call") if norm(c.get("callee", "")) == "filter::CompiledOneExpr::new"]
+    import sem
+
+    def bool_param(hx):
+        idx = [i for i, p_ in enumerate(hx.get("params", [])) if p_.get("k") == "PBinding" and p_.get("ty") == "bool"]
+        return idx[0] if len(idx) == 1 else None
+    bidx = bool_param(ho)
+    So = sem.Sem(E, ho)
     k = 0
     for c in outer:
         clo = closure_of(c["args"][0])
@@ -118,10 +125,19 @@ def rule_default(E, R, rule="R01-default", only=None, floor=12):
         k += 1
         uses = []
         for m in exprs(clo["body"], "MethodCall"):
-            if m["m"] in ("map_or", "unwrap_or") and is_param(m["args"][0], ho, 2):
+            if m["m"] in ("map_or", "unwrap_or") and bidx is not None and is_param(m["args"][0], ho, bidx):
                 uses.append(m["m"])
             elif m["m"] in ("map_or", "unwrap_or", "unwrap_or_default", "unwrap_or_else", "map_or_else", "is_some_and", "is_ok_and"):
                 uses.append("!" + m["m"])
+        # the same fallback written as a match / if-let: the closure's answer on the absent branch is the parameter itself
+        for lf in So.closure_leaves(clo):
+            if bidx is not None and sem.param_index(So, lf.node, lf.frame) == bidx and sem.peel(lf.node).get("k") == "Path":
+                absent = any(a_.kind == "is" and ((pol and all(sem.variant_head(z[0]) in ("Option::None", "Result::Err") for z in a_.alts)) or
+                                                  (not pol and all(sem.variant_head(z[0]) in ("Option::Some", "Result::Ok") for z in a_.alts)))
+                             for a_, pol in sem.is_literals(lf.pc))
+                uses.append("match" if absent else "!unconditional")
+            elif is_lit(lf.node, True) or is_lit(lf.node, False):
+                uses.append("!constant")
         good = len(uses) == 1 and not uses[0].startswith("!")
         R.check(good, rule, fn, "closure #%d falls back to `default` when the value is absent" % k,
                 "found %s" % uses, clo["sp"])
@@ -130,9 +146,11 @@ def rule_default(E, R, rule="R01-default", only=None, floor=12):
     fw = "ast::index_expr::IndexExpr::compile_with"
     hw = E.hir(fw)
     if hw:
-        ones = [c for c in exprs(hw["body"], "MethodCall") if c["m"] == "compile_one_with"]
-        R.check(len(ones) == 1 and is_param(ones[0]["args"][1], hw, 2), rule, fw,
-                "compile_with forwards `default` to compile_one_with", where=hw["span"])
+        ones = [c for c in exprs(hw["body"], ("MethodCall", "Call")) if c.get("m") == "compile_one_with" or norm(c.get("callee", "")).endswith("::compile_one_with")]
+        wb = bool_param(hw)
+        fwd = len(ones) == 1 and wb is not None and bidx is not None and \
+            [i_ for i_, a_ in enumerate(call_args(ones[0])) if is_param(a_, hw, wb)] == [bidx]
+        R.check(fwd, rule, fw, "compile_with forwards `default` to compile_one_with", where=hw["span"])
     else:
         R.cannot(rule, fw, "anchor not found")
 
